@@ -63,7 +63,7 @@ PLAN = {
              ">=2-byte prefix with a route in that snapshot (so a node on a shared path was copied); distinct by the operation list",
         assumptions=["map model", "a snapshot is identified with the model state at its creation"],
         quick=[REPLAY,
-               R("snapshots", "^TestSnapshots$", checks=900, steps=40, timeout=900),
+               R("snapshots", "^TestSnapshots$", checks=700, steps=40, timeout=900),
                R("large-txn", "^TestLargeTxn$", checks=3, timeout=900),
                R("concurrent", "^TestConcurrentReaders$", race=True, env={"C03_CONC_ROUNDS": 2500}, timeout=900)],
         thorough=[REPLAY,
